@@ -9,8 +9,9 @@ Core Lean only.  What is modelled, construct by construct from the Python source
   `os.replace`/`os.rename`, `shutil.copyfile`, `os.unlink`, `os.rmdir`, `os.mkdir`) — `step`;
 * a crash at every effect boundary and inside every non-atomic effect — `crashStates`, `crashAt`;
 * the write protocols of `coredata.save` (coredata.py:467-481), `build.save` (build.py:3670-3679),
-  `cmdline.write_cmd_line_file`/`update_cmd_line_file` (cmdline.py:87-110), the `build.ninja~` rename
-  (ninjabackend.py:713-776) — `atomicWrite`, `coredataSave`, `inPlaceWrite`;
+  `cmdline._write_config_atomically` used by `write_cmd_line_file`/`update_cmd_line_file` (cmdline.py:81-121,
+  since 550d77f), the `build.ninja~` rename (ninjabackend.py:713-776) — `atomicWrite`, `coredataSave`,
+  `cmdlineSave`, `inPlaceWrite`;
 * the readers a follow-up `meson setup [--reconfigure]` runs over the state files
   (`MesonApp.validate_dirs`, `Environment.__init__` → `coredata.load` → `pickle_load`,
   `cmdline.read_cmd_line_file`) as one total function `recover`.
@@ -31,6 +32,7 @@ def pBuildDat : Path := 4      -- meson-private/build.dat
 def pBuildNinja : Path := 5    -- build.ninja
 def pBuildNinjaTmp : Path := 6 -- build.ninja~
 def pPrivate : Path := 7       -- meson-private (directory)
+def pCmdlineTmp : Path := 8    -- meson-private/cmd_line.txt~
 
 inductive FileSt (α : Type) where
   | absent
@@ -133,7 +135,11 @@ def atomicWrite {α} (tmp dst : Path) (c : α) : List (Effect α) :=
 def coredataSave {α} (c : α) : List (Effect α) :=
   .copyfile pCoredata pCoredataPrev :: atomicWrite pCoredataTmp pCoredata c
 
-/-- `with open(p, 'w') as f: dump(f)` — build.save, write_cmd_line_file, update_cmd_line_file -/
+/-- `cmdline._write_config_atomically` (cmdline.py:81-89): cmd_line.txt~, flush, fsync, close, `os.replace` -/
+def cmdlineSave {α} (c : α) : List (Effect α) :=
+  atomicWrite pCmdlineTmp pCmdline c
+
+/-- `with open(p, 'w') as f: dump(f)` — build.save (build.dat); any in-place writer -/
 def inPlaceWrite {α} (p : Path) (c : α) : List (Effect α) :=
   [.openW p, .write p, .close p c]
 
@@ -142,7 +148,11 @@ def inPlaceWrite {α} (p : Path) (c : α) : List (Effect α) :=
 /-- where the option values of the recovered configuration come from -/
 inductive Src (α : Type) where
   | coredata (a : α)   -- `coredata.load` succeeded: the stored option state is used as is
-  | cmdline (a : α)    -- coredata missing/corrupt: rebuilt from the options stored in cmd_line.txt
+  | cmdline (a : α)    -- coredata corrupt: `read_cmd_line_file` is applied to the command-line options *before*
+                       -- the new coredata is created: -D options and the machine files of [properties] are re-read
+  | cmdlineOptions (a : α)
+                       -- coredata missing: only `_generate` reads cmd_line.txt, into a copy of the options that
+                       -- the interpreter sees; the -D options are re-applied, the machine files are not re-read
   | fresh              -- neither: a first-time configuration from the command line alone
   deriving DecidableEq, Repr
 
@@ -175,9 +185,10 @@ def recover {α} (fs : FS α) : Verdict α :=
     | .torn => .internalError
     | _ => .rejectedCleanly              -- isfile(cmd_line.txt) false: re-raised with the --wipe hint
   | _ =>
-    -- FileNotFoundError → create_new_coredata; _generate merges cmd_line.txt into the user options
+    -- FileNotFoundError → create_new_coredata(cmd_options) at once; _generate merges cmd_line.txt into
+    -- `user_defined_options` only (environment.py:131-132, msetup.py:228-229)
     match fs pCmdline with
-    | .ok w => .usable (.cmdline w)
+    | .ok w => .usable (.cmdlineOptions w)
     | .torn => .internalError
     | _ => .usable .fresh
 
@@ -193,18 +204,22 @@ inductive Cmd where
   | setup | reconfigure | wipe | configure
   deriving DecidableEq, Repr
 
-/-- the property's acceptance condition on a recovery verdict: recovery works and the option values are
-    the pre-command ones or the ones the command was setting.  For a first `setup` there is no pre-command
-    state: the user re-issues the same command line, so a fresh configuration *is* the new one. -/
-def acceptable (c : Cmd) : Verdict Gen → Bool
+/-- the property's acceptance condition on a recovery verdict: recovery works and every option has its
+    pre-command value or the one the command was setting.  `mf`: the directory is configured with a machine file
+    (then re-applying only the -D options loses the values that came from the file).  For a first `setup` there is
+    no pre-command state: the user re-issues the same command line (machine file included), so a fresh
+    configuration *is* the new one. -/
+def acceptable (c : Cmd) (mf : Bool) : Verdict Gen → Bool
   | .usable (.coredata g) => g == .old || g == .new
   | .usable (.cmdline g) => g == .old || g == .new
+  | .usable (.cmdlineOptions g) => (g == .old || g == .new) && (!mf || c == .setup)
   | .usable .fresh => c == .setup
   | _ => false
 
 structure Scenario where
   name : String
   cmd : Cmd
+  machineFile : Bool := false
   init : List (Path × FileSt Gen)
   trace : List (Effect Gen)
 
@@ -213,6 +228,6 @@ def Scenario.fs0 (sc : Scenario) : FS Gen := FS.ofList sc.init
 /-- crash states of the scenario whose recovery is not acceptable, as (index in `crashStates`, verdict) -/
 def badPoints (sc : Scenario) : List (Nat × Verdict Gen) :=
   ((crashStates sc.fs0 sc.trace).zipIdx.filterMap
-    (fun (s, i) => let v := recover s; if acceptable sc.cmd v then none else some (i, v)))
+    (fun (s, i) => let v := recover s; if acceptable sc.cmd sc.machineFile v then none else some (i, v)))
 
 end MesonModel.Crash
